@@ -5,7 +5,7 @@ from fractions import Fraction
 from ..core import rule
 from ..index import AnalysisError, dotted, src, walk_no_nested, names_in
 from ..domains import linform, Lin, rounding, check_pred
-from ..util import calls_named, arg
+from ..util import calls_named, arg, reach_expr, pred_is
 from .slots import COUNTTABLE, BINNING, P
 
 SPLITDOUBLE = P + 'bamProcessing/split_double_BAM.py'
@@ -155,15 +155,16 @@ def r4(ctx):
         if not (isinstance(l.target, ast.Tuple) and len(l.target.elts) == 2):
             raise AnalysisError('bin loop target is not (start, end)')
         st, en = [e.id for e in l.target.elts]
-        ifs = [s for s in l.body if isinstance(s, ast.If) and {st, en} & names_in(s.test) and not s.orelse
-               and all(isinstance(x, (ast.Continue, ast.Break, ast.Return, ast.Pass)) for x in s.body)]
-        if len(ifs) != 1:
-            ctx.emit('C10-R4', False, COUNTTABLE, l, 'no single out-of-bounds rejection found in the bin loop', key='bounds-predicate', undecided=True)
+        # the count increment inside the bin loop: its reach condition within one iteration is the acceptance condition of the window
+        aug = [x for x in walk_no_nested(l) if isinstance(x, ast.AugAssign)]
+        if len(aug) != 1:
+            ctx.emit('C10-R4', False, COUNTTABLE, l, f'{len(aug)} count increments in the bin loop (expected one)', key='bounds-predicate', undecided=True)
             continue
-        test = ifs[0].test
-        eff = type(ifs[0].body[-1]).__name__
-        ctx.emit('C10-R4', eff == 'Continue', COUNTTABLE, ifs[0], f'a rejected window is skipped with `{eff.lower()}`' +
-                 ('' if eff == 'Continue' else ': the remaining (in-bounds) windows of the same read are discarded as well'), key='bounds-effect')
+        jumps = [x for x in walk_no_nested(l) if isinstance(x, (ast.Break, ast.Return))]
+        eff = type(jumps[0]).__name__ if jumps else 'Continue'
+        ctx.emit('C10-R4', not jumps, COUNTTABLE, jumps[0] if jumps else l, f'a rejected window only skips itself (no break / return in the bin loop)' if not jumps else
+                 f'a rejected window is skipped with `{eff.lower()}`: the remaining (in-bounds) windows of the same read are discarded as well', key='bounds-effect')
+        test = reach_expr(l.body, aug[0])
 
         def atom(n):
             t = src(n)
@@ -176,11 +177,15 @@ def r4(ctx):
             if t == 'args.keepOverBounds':
                 return 'keep'
             return None
-        ncase, bad = check_pred(test, lambda e: (not e['keep']) and (e['start'] < 0 or e['end'] > e['L']),
-                                symbols=['start', 'end', 'L'], constraint=lambda e: e['start'] < e['end'] and e['L'] > 0, atom_name=atom, extra_consts=(0,), extra_bools=['keep'])
+        try:
+            ncase, bad = check_pred(test, lambda e: e['keep'] or (e['start'] >= 0 and e['end'] <= e['L']),
+                                    symbols=['start', 'end', 'L'], constraint=lambda e: e['start'] < e['end'] and e['L'] > 0, atom_name=atom, extra_consts=(0,), extra_bools=['keep'])
+        except AnalysisError as ex:
+            ctx.emit('C10-R4', False, COUNTTABLE, aug[0], f'acceptance condition `{src(test)}` of a window is not interpretable: {ex}', key='bounds-predicate', undecided=True)
+            continue
         ctx.counters['abstract_cases'] += ncase
-        ctx.emit('C10-R4', not bad, COUNTTABLE, ifs[0], f'bounds rejection `{src(test)}`: {ncase} cases enumerated; ' +
-                 ('== not keepOverBounds and (start < 0 or end > contig length)' if not bad else f'differs from the specification on {bad[0]}'),
+        ctx.emit('C10-R4', not bad, COUNTTABLE, aug[0], f'window acceptance `{src(test)}`: {ncase} cases enumerated; ' +
+                 ('== keepOverBounds or (start >= 0 and end <= contig length)' if not bad else f'differs from the specification on {bad[0]}'),
                  key='bounds-predicate', witness=bad[0] if bad else None)
         ctx.exhaustive['C10-R4'] = True
         # arguments of coordinate_to_bins
@@ -192,13 +197,12 @@ def r4(ctx):
         ctx.emit('C10-R4', ok and okp, COUNTTABLE, l, f'binned coordinate is int({valname}) = {src(prov[0].value) if prov else None}; bin size args.bin, increment args.sliding',
                  key='binned-value-provenance')
         # the increment is applied once per (sample, window)
-        aug = [x for x in walk_no_nested(l) if isinstance(x, ast.AugAssign)]
         okc = len(aug) == 1 and src(aug[0].value) == 'countToAdd' and st in names_in(aug[0].target) and en in names_in(aug[0].target)
         ctx.emit('C10-R4', okc, COUNTTABLE, l, 'each accepted window receives the weight once per sample: ' + (src(aug[0]) if aug else 'no increment found'),
                  key='one-increment-per-window')
     g = ctx.fn(COUNTTABLE, 'create_count_table')
-    dflt = [s for s in walk_no_nested(g) if isinstance(s, ast.If) and src(s.test) == 'args.sliding is None'
-            and any(isinstance(x, ast.Assign) and src(x) == 'args.sliding = args.bin' for x in s.body)]
+    dflt = [x for x in walk_no_nested(g) if isinstance(x, ast.Assign) and src(x) == 'args.sliding = args.bin'
+            and pred_is(reach_expr(g.body, x, drop=lambda t_: 'args.sliding' not in src(t_)), lambda e: e['none'], {'args.sliding is None': 'none'}, bools=['none'])]
     ctx.emit('C10-R4', bool(dflt), COUNTTABLE, g, 'sliding increment defaults to the bin size (no sliding)', key='sliding-default', nontrivial=False)
     # split_double_BAM takes element 0 with increment == bin size (exactly one window once R1 holds)
     if ctx.ix.exists(SPLITDOUBLE):
